@@ -1,4 +1,5 @@
 """C06 Formula results do not depend on evaluation order (differential between lock-step engines)."""
+import json
 from hypothesis import strategies as st
 from ..runner import Outcome
 from .. import ops as O, eqv
@@ -91,7 +92,7 @@ def run_case(case):
         if [eqv.jdump(eqv.canon(x)) for x in s.reply.stored and sorted(s.reply.stored, key=eqv.jdump)] != \
            [eqv.jdump(eqv.canon(x)) for x in r.stored and sorted(r.stored, key=eqv.jdump)]:
           # bulk calc actions may split rows differently: compare per-cell content instead
-          if cellset(s.reply.stored) != cellset(r.stored):
+          if cellset(s.reply.stored) != cellset(r.stored) and not cycle_in_stored_diff(hr.doc, s.reply.stored, r.stored):
             out.fail('C06:stored-differs:' + sig, 'stored actions differ by more than order for %r' % (s.uas,),
                      {'baseline': s.reply.stored[:6], 'permuted': r.stored[:6]})
             return True
@@ -103,6 +104,23 @@ def run_case(case):
   out['nontrivial'] = stats['multi'] > 0
   out.cls(*sorted(hr.labels))
   return out
+
+
+def cycle_in_stored_diff(doc, a, b):
+  """The stored actions of the two engines differ only in cells of columns that sit on an order-dependent cycle
+  (a real cycle through a lookup index, or a same-row cycle through a formula that swallows exceptions)."""
+  from ..hist import lookup_cycle_possible, swallowed_cycle_possible
+  cols = set()
+  for item in set(cellset(a)) ^ set(cellset(b)):
+    try:
+      x = json.loads(item)
+    except Exception:
+      return False
+    if not (isinstance(x, list) and len(x) == 5 and x[0] in ('UpdateRecord', 'AddRecord')):
+      return False
+    cols.add((x[1], x[3]))
+  fm = all_formulas(doc)
+  return bool(cols) and (swallowed_cycle_possible(fm, sorted(cols)) or lookup_cycle_possible(fm, sorted(cols)))
 
 
 def cellset(stored):
